@@ -445,9 +445,108 @@ class _FuncEval:
                     st = self.block(blk, st)
                     i += 2
                     continue
+            if self.ev.deep_inline_in and i + 1 < len(stmts) and isinstance(stmts[i], (ast.For, ast.While)) and self._in_deep_root():
+                blk = self._duplicate_tail(stmts[i], stmts[i + 1:])
+                if blk is not None:
+                    return self.block(blk, st)
             st = self.stmt(stmts[i], st)
             i += 1
         return st
+
+    def _in_deep_root(self) -> bool:
+        root = self
+        while getattr(root, "parent_eval", None) is not None:
+            root = root.parent_eval
+        return root.f is not None and root.f.qual in self.ev.deep_inline_in
+
+    def _duplicate_tail(self, loop: ast.AST, rest: list) -> Optional[list]:
+        """T5  loop{... break ...} [else: E]; R      ==>   loop{... R' ...} [else: E]; R        (R' a copy of R)
+        when R leaves the function on every path (ends in return / raise).  A `break` transfers control to the statement after
+        the loop, which is R, and R never comes back: executing a copy of R at the break is the same computation (tail
+        duplication).  This is the inverse of the single-exit style (`x = V; break ... else: x = W ... return x`), which it turns back
+        into `return V` inside the loop.  R must not contain a break / continue of its own level (it would bind to this loop once
+        copied) nor definitions; the loop's breaks inside a try with a finally clause are left alone."""
+        import copy
+        key = id(loop)
+        if key in self._desugared:
+            got = self._desugared[key]
+            return (got + list(rest)) if got else None
+
+        def terminates(stmts_) -> bool:
+            if not stmts_:
+                return False
+            last = stmts_[-1]
+            if isinstance(last, (ast.Return, ast.Raise)):
+                return True
+            if isinstance(last, ast.If):
+                return terminates(last.body) and terminates(last.orelse)
+            return False
+
+        def jumps(stmts_) -> bool:
+            for y in stmts_:
+                if isinstance(y, (ast.Break, ast.Continue, ast.FunctionDef, ast.AsyncFunctionDef, ast.ClassDef)):
+                    return True
+                if isinstance(y, (ast.For, ast.While)):
+                    if jumps(y.orelse):
+                        return True
+                    continue
+                for fld in ("body", "orelse", "finalbody"):
+                    sub = getattr(y, fld, None)
+                    if isinstance(sub, list) and jumps([z for z in sub if isinstance(z, ast.stmt)]):
+                        return True
+                for h in getattr(y, "handlers", []) or []:
+                    if jumps(h.body):
+                        return True
+            return False
+        if not terminates(rest) or jumps(rest) or len(rest) > 6 or \
+                any(isinstance(n, (ast.Lambda, ast.Yield, ast.YieldFrom, ast.Await)) for r_ in rest for n in ast.walk(r_)):
+            self._desugared[key] = []
+            return None
+        n_breaks = [0]
+
+        def rewrite(stmts_):
+            out = []
+            for y in stmts_:
+                if isinstance(y, ast.Break):
+                    n_breaks[0] += 1
+                    out.extend(copy.deepcopy(r_) for r_ in rest)
+                    continue
+                if isinstance(y, (ast.For, ast.While, ast.FunctionDef, ast.AsyncFunctionDef, ast.ClassDef)):
+                    out.append(y)  # a nested loop's breaks are its own
+                    continue
+                if isinstance(y, ast.Try) and y.finalbody and any(isinstance(n, ast.Break) for n in ast.walk(y)):
+                    raise ValueError
+                if isinstance(y, (ast.With, ast.Match)) and any(isinstance(n, ast.Break) for n in ast.walk(y)):
+                    raise ValueError
+                if any(isinstance(getattr(y, fld, None), list) for fld in ("body", "orelse", "handlers")):
+                    y2 = copy.copy(y)
+                    for fld in ("body", "orelse", "finalbody"):
+                        sub = getattr(y, fld, None)
+                        if isinstance(sub, list):
+                            setattr(y2, fld, rewrite(sub))
+                    if getattr(y, "handlers", None):
+                        hs = []
+                        for h in y.handlers:
+                            h2 = copy.copy(h)
+                            h2.body = rewrite(h.body)
+                            hs.append(h2)
+                        y2.handlers = hs
+                    out.append(y2)
+                else:
+                    out.append(y)
+            return out
+        try:
+            new_loop = copy.copy(loop)
+            new_loop.body = rewrite(loop.body)
+        except ValueError:
+            self._desugared[key] = []
+            return None
+        if not n_breaks[0]:
+            self._desugared[key] = []
+            return None
+        self._desugared[key] = [new_loop]
+        self.ev.deep_inlined.add(f"<tail duplicated into the breaks of the loop at line {getattr(loop, 'lineno', 0)}>")
+        return [new_loop] + list(rest)
 
     def _expand_option_helper(self, s1: ast.AST, s2: ast.AST, st: State) -> Optional[list]:
         """T3  x = H(a)                          H  ==  prefix; loop{... return V ...}; return None      (V never None)
@@ -1097,11 +1196,41 @@ class _FuncEval:
         if isinstance(s, ast.Try):
             return self.try_(s, st)
         if isinstance(s, ast.With):
+            # `with contextlib.suppress(E, ...): body`  ==  `try: body  except (E, ...): pass`   (exact: suppress.__exit__ returns
+            # True for subclasses of the listed classes only, and nothing else happens on entry or exit)
+            if len(s.items) == 1 and s.items[0].optional_vars is None and isinstance(s.items[0].context_expr, ast.Call) and \
+                    not s.items[0].context_expr.keywords and s.items[0].context_expr.args and \
+                    not any(isinstance(a_, ast.Starred) for a_ in s.items[0].context_expr.args):
+                fn_ = s.items[0].context_expr.func
+                ft = self.expr(fn_, st) if isinstance(fn_, (ast.Name, ast.Attribute)) else None
+                if ft == ("ext", "contextlib.suppress"):
+                    ca = s.items[0].context_expr.args
+                    ty = ca[0] if len(ca) == 1 else ast.Tuple(elts=list(ca), ctx=ast.Load())
+                    key = id(s)
+                    t_ = self._desugared.get(key)
+                    if t_ is None:
+                        h_ = ast.ExceptHandler(type=ty, name=None, body=[ast.copy_location(ast.Pass(), s)])
+                        t_ = ast.Try(body=s.body, handlers=[ast.copy_location(h_, s)], orelse=[], finalbody=[])
+                        ast.copy_location(t_, s)
+                        ast.fix_missing_locations(t_)
+                        t_._origin = s  # the statement it stands for (rules that ask where the try sits in the tree)
+                        self._desugared[key] = t_
+                    return self.try_(t_, st)
             for it in s.items:
                 v = self.expr(it.context_expr, st)
+                # a context manager may swallow exceptions raised in its body (an __exit__ returning True): only those known not to
+                # are modelled as "enter, run the body, leave"
+                known = v[0] == "call" and v[1] in (("builtin", "open"), ("ext", "contextlib.nullcontext"), ("ext", "io.open"),
+                                                    ("ext", "threading.Lock"), ("ext", "threading.RLock"))
+                if not known:
+                    self.s.unsupported.append(("With(unknown context manager)", getattr(s, "lineno", 0)))
                 if it.optional_vars is not None:
                     self.assign(it.optional_vars, ("with", v), st, s)
             return self.block(s.body, st)
+        if isinstance(s, ast.Match):
+            d_ = self._desugar_match(s)
+            if d_ is not None:
+                return self.block(d_, st)
         if isinstance(s, ast.Assert):
             c = self.expr(s.test, st)
             a, p = literal(c)
@@ -1160,6 +1289,64 @@ class _FuncEval:
         return st
 
     _closures: dict = {}
+    _desugared: dict = {}  # id(ast node) -> desugared statement(s); kept so that node identity is stable across evaluations
+
+    def _desugar_match(self, s: "ast.Match") -> Optional[list]:
+        """`match E: case P1: B1 ...` as `_m = E; if T1: B1 elif ...` for patterns whose test is an ordinary expression: literal and
+        dotted-name values (==), None/True/False (is), class patterns without sub-patterns (isinstance; for the builtin types too),
+        or-patterns of those, a wildcard, a bare capture name, `P as name`, and guards.  Exact for these forms (PEP 634); anything
+        else (sequence, mapping, class patterns with arguments, star patterns) is left unsupported."""
+        got = self._desugared.get(id(s))
+        if got is not None:
+            return got or None
+        tmp = f"_match_subject_{getattr(s, 'lineno', 0)}"
+
+        def subj():
+            return ast.Name(id=tmp, ctx=ast.Load())
+
+        def test(p):
+            """-> (test expr | None for always-true, [(name to bind)])"""
+            if isinstance(p, ast.MatchValue):
+                return ast.Compare(left=subj(), ops=[ast.Eq()], comparators=[p.value]), []
+            if isinstance(p, ast.MatchSingleton):
+                return ast.Compare(left=subj(), ops=[ast.Is()], comparators=[ast.Constant(value=p.value)]), []
+            if isinstance(p, ast.MatchClass) and not p.patterns and not p.kwd_patterns:
+                return ast.Call(func=ast.Name(id="isinstance", ctx=ast.Load()), args=[subj(), p.cls], keywords=[]), []
+            if isinstance(p, ast.MatchAs):
+                if p.pattern is None:
+                    return None, ([p.name] if p.name else [])
+                t_, b_ = test(p.pattern)
+                return t_, b_ + ([p.name] if p.name else [])
+            if isinstance(p, ast.MatchOr):
+                parts = [test(q) for q in p.patterns]
+                if any(b_ for _, b_ in parts):
+                    raise ValueError
+                if any(t_ is None for t_, _ in parts):
+                    return None, []
+                return ast.BoolOp(op=ast.Or(), values=[t_ for t_, _ in parts]), []
+            raise ValueError
+        try:
+            chain: list = []
+            for c in reversed(s.cases):
+                t_, binds = test(c.pattern)
+                body = [ast.Assign(targets=[ast.Name(id=n_, ctx=ast.Store())], value=subj()) for n_ in binds] + list(c.body)
+                if c.guard is not None:
+                    if binds:
+                        raise ValueError  # the guard may read the captured name before our assignment: keep it simple
+                    t_ = c.guard if t_ is None else ast.BoolOp(op=ast.And(), values=[t_, c.guard])
+                if t_ is None:
+                    chain = body
+                else:
+                    chain = [ast.If(test=t_, body=body, orelse=chain)]
+        except ValueError:
+            self._desugared[id(s)] = []
+            return None
+        out = [ast.Assign(targets=[ast.Name(id=tmp, ctx=ast.Store())], value=s.subject)] + chain
+        for n_ in out:
+            ast.copy_location(n_, s)
+            ast.fix_missing_locations(n_)
+        self._desugared[id(s)] = out
+        return out
 
     def bind(self, name: str, v: Term, st: State, node: ast.AST) -> None:
         if name in self.global_names:
@@ -1301,6 +1488,10 @@ class _FuncEval:
         ast_ = State(after, st.cond)
         if s.orelse:
             self.loop_stack.append(lid + ":else")
+            if not info.break_states:
+                # no break leaves this loop: its else clause runs whenever the loop ends, so it is plain code after the loop
+                self.loop_stack.pop()
+                return self.block(s.orelse, State(after, st.cond))
             est = State(after.copy(), st.cond + ((("nobreak", lid), True),))
             eo = self.block(s.orelse, est)
             self.loop_stack.pop()
